@@ -9,6 +9,7 @@ import (
 	"path/filepath"
 	"sort"
 	"strings"
+	"time"
 
 	"github.com/bitcoin-sv/block-headers-service/config"
 	"github.com/bitcoin-sv/block-headers-service/metrics"
@@ -26,14 +27,21 @@ func init() {
 //          everything after "H=", verbatim, with $A = admin token, $U = an issued token, $R = a token that was
 //          issued, used successfully and then revoked, $X = a never issued value)
 //         a = use_auth, p = profiling endpoints, m = metrics, an optional 4th character 'f' = the token store
-//         fails (SELECT on the tokens table returns a storage error) during the request; the route pattern is the one of
-//         engine.Routes() (parameters are instantiated by the harness).
+//         fails (SELECT on the tokens table returns a storage error) during the request; optional "~U" / "~X" / "~R" =
+//         the request is made while an authenticate (GET /api/v1/access) of that token is held inside the token
+//         repository (its lookup has returned); optional "@<value>" = the configured admin token (no space);
+//         the route pattern is the one of engine.Routes() (parameters are instantiated by the harness).
 // obs   : "pass"                                   the request was not answered 401
 //         "401 <code> unchanged|CHANGED(<tables>)"  structured 401 (code of the JSON body) and whether the
 //                                                   tokens / webhooks / headers tables changed across the request
 //         "401 UNSTRUCTURED ..."                    401 whose body is not {"code":..,"message":..}
+//         in a "~" configuration followed by " bg=pass" / " bg=401:<code>", the answer of the held request
 
-type c09Cfg struct{ auth, prof, met, fail bool }
+type c09Cfg struct {
+	auth, prof, met, fail bool
+	over                  string // "U" / "X" / "R": the request is made while a lookup of that token is in flight
+	admin                 string // configured admin token ("" = the default)
+}
 
 func (k c09Cfg) String() string {
 	b := func(x bool) string {
@@ -42,11 +50,21 @@ func (k c09Cfg) String() string {
 		}
 		return "0"
 	}
+	out := b(k.auth) + b(k.prof) + b(k.met)
 	if k.fail {
-		return b(k.auth) + b(k.prof) + b(k.met) + "f"
+		out += "f"
 	}
-	return b(k.auth) + b(k.prof) + b(k.met)
+	if k.over != "" {
+		out += "~" + k.over
+	}
+	if k.admin != "" {
+		out += "@" + k.admin
+	}
+	return out
 }
+
+// plain: one of the configurations whose routing table goes into coq/gen/Routes.v
+func (k c09Cfg) plain() bool { return k.over == "" && k.admin == "" }
 
 // metrics cannot be switched off again in one process (package-level state of /repo/metrics), hence the order
 func c09Configs() []c09Cfg {
@@ -54,17 +72,30 @@ func c09Configs() []c09Cfg {
 	for _, m := range []bool{false, true} {
 		for _, a := range []bool{false, true} {
 			for _, p := range []bool{false, true} {
-				out = append(out, c09Cfg{a, p, m, false})
+				out = append(out, c09Cfg{auth: a, prof: p, met: m})
 			}
 		}
 		// the same routes while every token lookup FAILS with a storage error (the tokens table is made unavailable
 		// for the duration of each request): authentication must fail closed, the admin token must still work
-		out = append(out, c09Cfg{true, false, m, true})
+		out = append(out, c09Cfg{auth: true, met: m, fail: true})
+		if !m {
+			// overlapping authentications: the request is made while the lookup of another token is held inside
+			// the token repository (the verdict must depend on the request's own token only)
+			for _, o := range []string{"U", "X", "R"} {
+				out = append(out, c09Cfg{auth: true, over: o})
+			}
+			// the admin token is configuration: shorter / as long as / longer than issued tokens, other characters
+			for _, adm := range adminTokenVariants() {
+				out = append(out, c09Cfg{auth: true, admin: adm})
+			}
+		}
 	}
 	return out
 }
 
 type c09Route struct{ Method, Path string }
+
+var c09Pause = &tokPauser{}
 
 func c09Build(k c09Cfg, dir string) (*FullStack, []c09Route, error) {
 	if k.met {
@@ -74,10 +105,11 @@ func c09Build(k c09Cfg, dir string) (*FullStack, []c09Route, error) {
 	} else if _, on := metrics.Get(); on {
 		return nil, nil, fmt.Errorf("metrics already enabled in this process; metrics-off configuration %s cannot be built", k)
 	}
-	s, err := NewStack(StackOpts{Dir: dir, UseAuth: k.auth, Profiling: k.prof})
+	s, err := NewStack(StackOpts{Dir: dir, UseAuth: k.auth, Profiling: k.prof, AdminToken: k.admin})
 	if err != nil {
 		return nil, nil, err
 	}
+	c09Pause.install(s) // scheduling point in the token repository (used by the overlap configurations)
 	s.Cfg.HTTP.ProfilingEndpointsEnabled = k.prof
 	s.Cfg.Metrics.Enabled = k.met
 	fs, err := NewFullStack(s, FullOpts{Websocket: true})
@@ -113,6 +145,9 @@ func dumpRoutes() (string, error) {
 	sb.WriteString("From Coq Require Import String List.\nImport ListNotations.\nOpen Scope string_scope.\n\n")
 	var names []string
 	for i, k := range c09Configs() {
+		if !k.plain() {
+			continue
+		}
 		fs, rs, err := c09Build(k, filepath.Join(dir, fmt.Sprint(i)))
 		if err != nil {
 			return "", err
@@ -260,8 +295,67 @@ func (e *c09Env) digests() [3]string {
 	return [3]string{e.fs.TableDigest("tokens"), e.fs.TableDigest("webhooks"), e.fs.TableDigest("headers")}
 }
 
-// one request; returns the observable
+// one request; returns the observable.  In an overlap configuration the request is made while an authenticate
+// (GET /api/v1/access) of the token e.k.over is held inside the token repository; the observable then ends with
+// " bg=pass" / " bg=401:<code>", the answer of that held request.
 func (e *c09Env) request(method, pattern, hdr, query string) (obs string) {
+	if e.k.over == "" {
+		return e.requestPlain(method, pattern, hdr, query)
+	}
+	held := e.subst("$" + e.k.over)
+	reached, release := c09Pause.arm(held)
+	bg := make(chan string, 1)
+	go func() {
+		defer func() {
+			if r := recover(); r != nil {
+				bg <- "PANIC"
+			}
+		}()
+		code, out := e.fs.Do("GET", "/api/v1/access", "", map[string]string{"Authorization": "Bearer " + held})
+		if code != 401 {
+			bg <- "pass"
+			return
+		}
+		var er struct {
+			Code string `json:"code"`
+		}
+		_ = json.Unmarshal([]byte(out), &er)
+		bg <- "401:" + er.Code
+	}()
+	bgRes := ""
+	select {
+	case <-reached:
+	case bgRes = <-bg:
+	case <-time.After(5 * time.Second):
+		bgRes = "TIMEOUT"
+	}
+	fg := make(chan string, 1)
+	go func() { fg <- e.requestPlain(method, pattern, hdr, query) }()
+	fgRes := ""
+	select {
+	case fgRes = <-fg:
+	case <-time.After(300 * time.Millisecond): // the request waits for the held lookup: let that one finish
+	}
+	c09Pause.disarm()
+	close(release)
+	if fgRes == "" {
+		select {
+		case fgRes = <-fg:
+		case <-time.After(10 * time.Second):
+			fgRes = "TIMEOUT"
+		}
+	}
+	if bgRes == "" {
+		select {
+		case bgRes = <-bg:
+		case <-time.After(5 * time.Second):
+			bgRes = "TIMEOUT"
+		}
+	}
+	return fgRes + " bg=" + bgRes
+}
+
+func (e *c09Env) requestPlain(method, pattern, hdr, query string) (obs string) {
 	defer func() {
 		if r := recover(); r != nil {
 			obs = fmt.Sprintf("PANIC %v", r)
@@ -329,14 +423,26 @@ func c09Input(k c09Cfg, r c09Route, hdr string) string {
 }
 
 func c09ParseInput(in string) (k c09Cfg, r c09Route, hdr string, err error) {
-	i := strings.Index(in, " H")
-	p := strings.Split(in, " ")
-	if i < 0 || len(p) < 4 || !strings.HasPrefix(p[0], "cfg=") || (len(p[0]) != 7 && p[0][7:] != "f") {
-		return k, r, "", fmt.Errorf("bad input %q", in)
-	}
 	// header = everything after the third space + "H"
 	rest := strings.SplitN(in, " ", 4)
-	k = c09Cfg{p[0][4] == '1', p[0][5] == '1', p[0][6] == '1', len(p[0]) == 8}
+	if len(rest) != 4 || !strings.HasPrefix(rest[0], "cfg=") || len(rest[0]) < 7 || !strings.HasPrefix(rest[3], "H") || len(rest[3]) < 2 {
+		return k, r, "", fmt.Errorf("bad input %q", in)
+	}
+	cf := rest[0][4:]
+	k = c09Cfg{auth: cf[0] == '1', prof: cf[1] == '1', met: cf[2] == '1'}
+	cf = cf[3:]
+	if i := strings.Index(cf, "@"); i >= 0 {
+		k.admin, cf = cf[i+1:], cf[:i]
+	}
+	if strings.HasPrefix(cf, "f") {
+		k.fail, cf = true, cf[1:]
+	}
+	if strings.HasPrefix(cf, "~") && len(cf) == 2 {
+		k.over, cf = cf[1:], ""
+	}
+	if cf != "" {
+		return k, r, "", fmt.Errorf("bad configuration in %q", in)
+	}
 	return k, c09Route{rest[1], rest[2]}, rest[3][1:], nil
 }
 
@@ -390,7 +496,11 @@ func runC09(c *Ctx) error {
 			seen[in] = true
 			c.Case(in, e.request(r.Method, r.Path, hdr, q))
 			c.Count("cred:" + class)
-			c.Count("cfg:" + k.String())
+			ck := k
+			if ck.admin != "" {
+				ck.admin = fmt.Sprintf("len%03d", len(k.admin))
+			}
+			c.Count("cfg:" + ck.String())
 			if strings.HasPrefix(r.Path, "/api/v1") {
 				c.Count("route:api")
 			} else {
@@ -407,7 +517,31 @@ func runC09(c *Ctx) error {
 				one(c09Route{p[0], p[1]}, p[2][1:], "corpus", "")
 			}
 		}
-		for _, r := range e.routes {
+		// the routes / credentials exercised in this configuration
+		routes, creds := e.routes, c09Creds
+		rep4 := func(r c09Route) bool {
+			return r.Path == "/api/v1/access" || r.Path == "/api/v1/access/:token" || r.Path == "/api/v1/chain/tip/longest" || r.Path == "/api/v1/webhook"
+		}
+		switch {
+		case k.over != "":
+			// ordinary routes (one of them state-changing) and the two admin routes
+			routes = nil
+			for _, r := range e.routes {
+				if rep4(r) || r.Path == "/api/v1/chain/merkleroot/verify" {
+					routes = append(routes, r)
+				}
+			}
+			creds = []c09Cred{{"=Bearer $X", "unknown"}, {"=Bearer $R", "revoked"}, {"=Bearer $U", "user"}, {"=Bearer $A", "admin"},
+				{"-", "none"}, {"=Bearer $U x", "extra-parts"}, {"=Bearer $X$U", "unknown"}}
+		case k.admin != "" && !c.Thorough():
+			routes = nil
+			for _, r := range e.routes {
+				if rep4(r) || r.Path == "/api/v1/network/peer" || r.Path == "/status" {
+					routes = append(routes, r)
+				}
+			}
+		}
+		for _, r := range routes {
 			if c09Slow(r) {
 				// CPU profile / execution trace block for their whole duration: classified through the
 				// regenerated table; invoked once (1 s) in the thorough tier only
@@ -417,19 +551,23 @@ func runC09(c *Ctx) error {
 				}
 				continue
 			}
-			for _, cr := range c09Creds {
+			for _, cr := range creds {
 				one(r, cr.hdr, cr.class, "")
 			}
 		}
 		// malformed / random Authorization values on representative routes (the parser is the same for all)
-		if k.auth {
+		if k.auth && k.over == "" {
 			var rep []c09Route
 			for _, r := range e.routes {
 				if r.Path == "/api/v1/access" || r.Path == "/api/v1/access/:token" || r.Path == "/api/v1/chain/tip/longest" || r.Path == "/api/v1/webhook" {
 					rep = append(rep, r)
 				}
 			}
-			for j, n := 0, c.Pick(150, 5000); j < n && len(rep) > 0; j++ {
+			nrand := c.Pick(150, 5000)
+			if k.admin != "" {
+				nrand = c.Pick(20, 500)
+			}
+			for j, n := 0, nrand; j < n && len(rep) > 0; j++ {
 				var sb strings.Builder
 				for l, m := 0, 1+c.Rng.Intn(5); l < m; l++ {
 					sb.WriteString(c09Pieces[c.Rng.Intn(len(c09Pieces))])
@@ -437,7 +575,9 @@ func runC09(c *Ctx) error {
 				one(rep[c.Rng.Intn(len(rep))], "="+sb.String(), "random", "")
 			}
 		}
-		c.Meta("routes_cfg_"+k.String(), fmt.Sprint(len(e.routes)))
+		if k.plain() {
+			c.Meta("routes_cfg_"+k.String(), fmt.Sprint(len(e.routes)))
+		}
 		e.fs.Shutdown()
 	}
 	// observation recorded in the evidence (not a case): an empty http.auth_token is accepted by the
